@@ -2,8 +2,10 @@
 from . import e2gen as G
 from . import common as C
 from . import crashwl as CW
+import re, struct, zlib
 
-MODEL_TARGETS = ["theories/Spec/Machine.vo"]
+MODEL_TARGETS = ["theories/Spec/Machine.vo", "theories/Lsm/VlogInst.vo"]
+PARAM_SECTIONS = ["vlog", "c16"]
 TRUSTED = ["values are compared byte-for-byte through #len/fnv digests; the value log is invisible to the specification machine, "
            "so every dependence on separation, file rotation or clean-up shows as a difference"]
 ASSUMPTIONS = ["sequential scripts"]
@@ -110,6 +112,470 @@ def volume_index_gc(ctx):
     return out, total
 
 
+# ------------------------------------------------------------------------------------------------------
+# (i) codec differential: the crate's ValuePointer / ValueLocation codecs, a value log on its own directory
+# (append / get / rotation / clean-up / reopen) and MemTable::flush with value separation, against the
+# extracted Codec/VlogPtr.v + Lsm/Vlog.v (`vp` commands); an independent python oracle for the pointer
+# codec, the entry framing (zlib.crc32) and the rotation rule.
+BOUND = {1: [0, 1, 2, 127, 128, 254, 255], 4: [0, 1, 255, 256, 65535, 65536, 2**31 - 1, 2**31, 2**32 - 2, 2**32 - 1],
+         8: [0, 1, 255, 256, 2**32 - 1, 2**32, 2**63 - 1, 2**63, 2**64 - 2, 2**64 - 1]}
+PW = [1, 4, 8, 4, 4, 4]
+
+
+def py_penc(f):
+    return struct.pack(">BIQIII", *f).hex()
+
+
+def rnd_field(rng, w):
+    r = rng.random()
+    if r < 0.45:
+        return rng.choice(BOUND[w])
+    if r < 0.7:
+        return rng.randrange(0, 256 ** w)
+    return rng.randrange(0, 1 << rng.randint(1, 8 * w))
+
+
+def hx(b):
+    return b.hex() if b else "-"
+
+
+def codec_script(rng, n):
+    """list of (command, python-oracle answer or None)"""
+    out = [("vp consts", "consts:25,1,1,1,1,31")]
+    for _ in range(n):
+        r = rng.random()
+        if r < 0.22:
+            f = [rnd_field(rng, w) for w in PW]
+            out.append(("vp penc " + " ".join(map(str, f)), py_penc(f)))
+            out.append(("vp pdec " + py_penc(f), "ptr:" + ".".join(map(str, f))))
+            out.append(("vp lptr " + " ".join(map(str, f)), "0101" + py_penc(f)))
+            out.append(("vp ptrof 0101" + py_penc(f), "ptr:" + ".".join(map(str, f))))
+        elif r < 0.40:
+            # malformed pointer bytes: wrong lengths, mutated encodings, random bytes
+            k = rng.choice([0, 1, 2, 12, 24, 25, 25, 25, 26, 27, 40, 50])
+            b = bytes(rng.randrange(256) for _ in range(k))
+            exp = ("ptr:" + ".".join(map(str, struct.unpack(">BIQIII", b)))) if k == 25 else "err"
+            out.append(("vp pdec " + hx(b), exp))
+            # as a stored value: meta byte with / without the pointer bit, version byte, then the bytes
+            meta = rng.choice([0, 1, 1, 1, 2, 3, 254, 255])
+            sv = bytes([meta, rng.choice([0, 1, 1, 2, 255])]) + b
+            isp = meta & 1
+            exp2 = ("ptr:" + ".".join(map(str, struct.unpack(">BIQIII", b)))) if (isp and k == 25) else "none"
+            out.append(("vp ptrof " + hx(sv), exp2))
+            out.append(("vp ldec " + hx(sv), None))
+            out.append(("vp ldec " + hx(sv[:rng.choice([0, 1, 2])]), None))
+        elif r < 0.52:
+            meta, ver = rng.choice([0, 1, 2, 255]), rng.choice([0, 1, 2, 255])
+            ln = rng.choice([0, 1, 2, 16, 17, 25, 300])
+            out.append(("vp lenc %d %d %s" % (meta, ver, "rep:%d:%d" % (ln, rng.randrange(256)) if ln else "-"), None))
+            out.append(("vp linl %s" % ("rep:%d:%d" % (ln, rng.randrange(256)) if ln else "-"), None))
+        elif r < 0.70:
+            # the inline-or-pointer decision on one raw stored value
+            th = rng.choice([0, 1, 2, 8, 64, 300])
+            kind = rng.random()
+            if kind < 0.6:
+                ln = max(0, th + rng.choice([-2, -1, 0, 1, 2, 40]))
+                raw = bytes([0, 1]) + C.rep(ln, rng.randrange(256))
+                exp = ("append:%d" % ln) if ln > th else "pass"
+            elif kind < 0.7:
+                raw, exp = b"", "pass"
+            elif kind < 0.8:
+                raw, exp = bytes([rng.randrange(256)]), "err"
+            elif kind < 0.9:
+                # the pointer bit is set: passes through whatever follows (even if no pointer decodes from it)
+                raw = bytes([rng.choice([1, 3, 255]), rng.randrange(256)]) + bytes(rng.randrange(256) for _ in range(rng.choice([0, 3, 25, 30])))
+                exp = "pass"
+            else:
+                ln = rng.choice([0, 1, th, th + 1, th + 5])
+                raw = bytes([rng.choice([0, 2, 4, 254]), rng.randrange(256)]) + C.rep(ln, 7)
+                exp = ("append:%d" % ln) if ln > th else "pass"
+            out.append(("vp sep %d %s" % (th, hx(raw)), exp))
+        elif r < 0.85:
+            # a memtable flush with separation: distinct ascending user keys, small files (rotation inside the flush)
+            th, mx = rng.choice([0, 1, 8, 16, 64]), rng.choice([32, 64, 100, 256, 4096])
+            keys = sorted(set("6b%02x" % rng.randrange(256) + ("%02x" % rng.randrange(256)) * rng.randint(0, 2) for _ in range(rng.randint(1, 9))),
+                          key=lambda h: bytes.fromhex(h))
+            ents = []
+            for j, k in enumerate(keys):
+                if rng.random() < 0.15:
+                    ents.append("%s/%d/d/-" % (k, 10 + j))
+                else:
+                    ln = max(0, th + rng.choice([-1, 0, 1, 2, 30, 200]))
+                    ents.append("%s/%d/s/%s" % (k, 10 + j, ("rep:%d:%d" % (ln, rng.randrange(256))) if ln else "-"))
+            out.append(("vp flush %d %d %d %s" % (th, mx, rng.randint(1, 9), ",".join(ents) or "-"), None))
+        else:
+            # a value log of its own: appends around the rotation limit, reads of every pointer at both checksum
+            # levels, reads of wrong pointers, clean-up with every minimum, reopen, more appends
+            mx, full = rng.choice([31, 32, 64, 100, 256]), rng.randint(0, 1)
+            out.append(("vp lognew %d %d" % (mx, full), "ok"))
+            files, active, nxt, ptrs = {}, 0, 1, []
+
+            def append(k, v):
+                nonlocal active, nxt
+                if active == 0 or files[active] >= mx:
+                    files[nxt] = 31
+                    active, nxt = nxt, nxt + 1
+                p = (1, active, files[active], len(k), len(v), zlib.crc32(k + v) & 0xffffffff)
+                files[active] += 12 + len(k) + len(v)
+                return p
+            for rnd in range(2):
+                for _ in range(rng.randint(1, 6)):
+                    k = bytes.fromhex("6b%02x" % rng.randrange(256))
+                    seed, ln = rng.randrange(256), rng.choice([0, 1, 5, 20, 33, 70, 300])
+                    v = C.rep(ln, seed)
+                    p = append(k, v)
+                    ptrs.append((p, v))
+                    out.append(("vp append %s %s" % (k.hex(), ("rep:%d:%d" % (ln, seed)) if ln else "-"), "ptr:" + ".".join(map(str, p))))
+                out.append(("vp state", "files=%s active=%d next=%d" % (",".join("%d:%d" % kv for kv in sorted(files.items())), active, nxt)))
+                for p, v in rng.sample(ptrs, min(len(ptrs), 4)):
+                    exp = "val:" + (("#%d/%s" % (len(v), C.fnv(v))) if len(v) > 16 else hx(v)) if p[1] in files else "err"
+                    out.append(("vp get " + " ".join(map(str, p)), exp))
+                    q = list(p)
+                    q[rng.choice([2, 3, 4, 5])] += 1           # a wrong pointer: model and implementation must agree
+                    out.append(("vp get " + " ".join(map(str, q)), None))
+                out.append(("vp file %d" % rng.choice(list(files)), None))
+                m = rng.choice([0, 1, 2, active, active + 1, nxt + 3])
+                if m:
+                    for f in [f for f in files if f < m and f != active]:
+                        del files[f]
+                out.append(("vp cleanup %d" % m, "files=%s active=%d next=%d" % (",".join("%d:%d" % kv for kv in sorted(files.items())), active, nxt)))
+                if rnd == 0:
+                    out.append(("vp reopen", "files=%s active=%d next=%d" % (",".join("%d:%d" % kv for kv in sorted(files.items())), active, nxt)))
+    return out
+
+
+def codec_differential(ctx):
+    rng = C.Rng(ctx["seed"] * 7919 + 11)
+    n = 900 if ctx["tier"] == "quick" else 12000
+    items = codec_script(rng, n)
+    # the value-log blocks are stateful: shard on block boundaries
+    blocks, cur = [], []
+    for it in items:
+        if it[0].startswith("vp lognew") and cur:
+            blocks.append(cur)
+            cur = []
+        cur.append(it)
+    blocks.append(cur)
+    shards = C.shard(blocks, C.NCPU)
+    scripts = [[c for b in sh for (c, _) in b] for sh in shards]
+    res = C.run_pairs(scripts, sides=("impl", "model") if ctx["have_model"] else ("impl",))
+    viol, dis, kinds, n_eval = [], [], {}, 0
+    for sh, r in zip(shards, res):
+        cmds = [it for b in sh for it in b]
+        impl = r["impl"][0]
+        model = r["model"][0] if "model" in r else None
+        for j, (c, exp) in enumerate(cmds):
+            n_eval += 1
+            kinds[c.split()[1]] = kinds.get(c.split()[1], 0) + 1
+            gi = impl[j] if j < len(impl) else "<missing>"
+            gm = (model[j] if j < len(model) else "<missing>") if model is not None else None
+            if exp is not None and gi != exp and len(viol) < 5:
+                # the oracle is the property: a pointer decodes to what was encoded, `get` returns what `append` wrote
+                ctxl = [x for (x, _) in cmds[max(0, j - 30):j + 1]]
+                k0 = max((i for i, x in enumerate(ctxl) if x.startswith("vp lognew")), default=0)
+                viol.append(("value-log codec: `%s` answers %s, expected %s" % (c[:200], gi[:200], exp[:200]),
+                             "# property=C11\n# oracle: pointer/location/entry codec (python)\n" + "".join("> %s\n" % x for x in ctxl[k0:]) + "IMPL:  %s\nWANT:  %s\n" % (gi, exp)))
+            if gm is not None and gm != gi and len(dis) < 10:
+                dis.append("vp: model and implementation differ on `%s`: impl %s, model %s" % (c[:300], gi[:200], gm[:200]))
+    return viol, dis, dict(commands=n_eval, by_kind=kinds)
+
+
+# ------------------------------------------------------------------------------------------------------
+# (ii) state-machine conformance: E2 programs with the value log; after every physical command the real
+# value-log directory, writer ids and every live table (oldest_vlog_file_id, stored values) are dumped through the
+# facade; the same flush / compaction / reopen sequence is replayed in the extracted Lsm/Vlog.v machine
+# (`vl` commands: it decides separation, rotation, pointers, oldest ids, the clean-up) and compared after
+# every command.
+PHYS = ("flush", "flush1", "compact", "compactauto", "reopen", "open")
+CONF_OPTS = ["lc=2,vlog=1,vth=8,vfs=64", "lc=3,vlog=1,vth=1,vfs=256", "lc=2,vlog=1,vth=0,vfs=128", "lc=2,vlog=1,vth=64,vfs=4096",
+             "lc=1,vlog=1,vth=8,vfs=64", "lc=2,vlog=1,vth=8,vfs=64,vck=1", "lc=2,vlog=1,vth=8,vfs=100,foc=1",
+             "lc=2,ver=1,vlog=1,vth=0,vfs=96,idx=1", "lc=3,ver=1,vlog=1,vth=0,vfs=64,idx=1,ret=1", "lc=2,ver=1,vlog=1,vth=0,vfs=128,ret=5"]
+
+
+def conf_values(rng, n):
+    size = rng.choice([0, 1, 2, 4, 5, 7, 8, 9, 63, 64, 65, 120, 200, 700])
+    return "-" if size == 0 else "rep:%d:%d" % (size, n & 255)
+
+
+class DumpGen(G.ProgGen):
+    clock = 0
+
+    def emit(self, line):
+        a = G.ProgGen.emit(self, line)
+        if line.split()[1] in PHYS:
+            self.lines.append("e2 vlogdump")
+            self.exp.append("-")
+        return a
+
+    def step(self):
+        # versioned stores: the clock moves, so that retention (ret=N) lets compactions drop old versions
+        if "ver=1" in self.opts and self.rng.random() < 0.08:
+            self.clock += self.rng.choice([1, 3, 10, 1000])
+            self.emit("e2 clock %d" % self.clock)
+        G.ProgGen.step(self)
+
+
+def directed_program(rng, model, opts):
+    """write rounds over a few keys (overwrites and deletes make value-log files obsolete), each followed by flush /
+    compaction / reopen, sometimes under a held reader; every physical command is followed by a dump"""
+    lines, exp = [], []
+
+    def emit(l):
+        lines.append(l)
+        exp.append(model.ask(l))
+        if l.split()[1] in PHYS:
+            lines.append("e2 vlogdump")
+            exp.append("-")
+    lc = opt_of(opts, "lc", 3)
+    keys = rng.sample(["61", "62", "6162", "63", "6200", "64"], rng.randint(2, 5))
+    th = opt_of(opts, "vth", 8)
+    emit("e2 new")
+    emit("e2 open " + opts)
+    tx, clock, held = 0, 0, []
+    for rnd in range(rng.randint(5, 14)):
+        for _ in range(rng.randint(1, 3)):
+            tx += 1
+            emit("e2 begin %d rw" % tx)
+            for _ in range(rng.randint(1, 4)):
+                k = rng.choice(keys)
+                r = rng.random()
+                if r < 0.8:
+                    ln = max(0, th + rng.choice([-1, 0, 1, 1, 2, 20, 20, 50, 90, 300]))
+                    emit("e2 set %d %s %s" % (tx, k, ("rep:%d:%d" % (ln, (tx * 7 + rnd) & 255)) if ln else "-"))
+                elif r < 0.9:
+                    emit("e2 del %d %s" % (tx, k))
+                else:
+                    emit("e2 sdel %d %s" % (tx, k))
+            emit("e2 commit %d" % tx)
+            emit("e2 drop %d" % tx)
+        if "ver=1" in opts and rng.random() < 0.5:
+            clock += rng.choice([1, 3, 10, 1000])
+            emit("e2 clock %d" % clock)
+        if rng.random() < 0.15 and len(held) < 2:
+            tx += 1
+            emit("e2 begin %d ro" % tx)
+            emit("e2 get %d %s" % (tx, rng.choice(keys)))
+            held.append(tx)
+        elif held and rng.random() < 0.3:
+            emit("e2 drop %d" % held.pop(0))
+        r = rng.random()
+        if r < 0.1:
+            emit("e2 rotate")
+            continue
+        emit("e2 flush" if r < 0.9 else "e2 flush1")
+        for _ in range(rng.choice([0, 1, 1, 2, 3])):
+            emit("e2 compact %d" % rng.randint(0, max(0, lc - 1)))
+        if rng.random() < 0.1:
+            emit("e2 compactauto")
+        for h in held:
+            emit("e2 get %d %s" % (h, rng.choice(keys)))
+        if rng.random() < 0.12:
+            emit("e2 reopen")
+            held = []
+    tx += 1
+    emit("e2 begin %d ro" % tx)
+    emit("e2 scan %d - ff00 f" % tx)
+    for k in keys:
+        emit("e2 get %d %s" % (tx, k))
+    return lines, exp
+
+
+def parse_dump(line):
+    """vlog:files=..;active=..;next=..;min=..;tables=..;index=.. -> dict (checksums zeroed, levels dropped)"""
+    if not line.startswith("vlog:files="):
+        return None
+    d = dict(kv.split("=", 1) for kv in line[5:].split(";"))
+    tables = {}
+    for t in [x for x in d["tables"].split("|") if x]:
+        m = re.match(r"(\d+)(?:@\d+)?/(\d+)\[(.*)\]$", t)
+        tables[int(m.group(1))] = (int(m.group(2)), [norm_entry(e) for e in m.group(3).split(",") if e])
+    idx = None if d["index"] == "off" else sorted(norm_entry(e) for e in d["index"][1:-1].split(",") if e)
+    return dict(files=d["files"], active=int(d["active"]), next=int(d["next"]), min=int(d["min"]), tables=tables, index=idx)
+
+
+def norm_entry(e):
+    k, s = e.split("=", 1)
+    if s.startswith("p:"):
+        f = s[2:].split(".")
+        f[5] = "0"
+        s = "p:" + ".".join(f)
+    return k + "=" + s
+
+
+def mem_entry(e):
+    k, s = e.split("=", 1)
+    if s == "t":
+        return k + "=t"
+    if s.startswith("p:"):
+        return "%s=s:%s" % (k, s[2:].split(".")[4])
+    if s.startswith("i:"):
+        return "%s=s:%s" % (k, s[2:])
+    return None
+
+
+def opt_of(opts, key, default):
+    for kv in opts.split(","):
+        if kv.startswith(key + "="):
+            return int(kv.split("=")[1])
+    return default
+
+
+def conformance(ctx):
+    rng = C.Rng(ctx["seed"] * 104729 + 5)
+    n = 60 if ctx["tier"] == "quick" else 900
+    res = dict(violations=[], disagreements=[], cov={})
+    if not ctx["have_model"]:
+        res["disagreements"].append("value-log machine unavailable (extraction/driver did not build)")
+        return res
+    model = G.Model()
+    W2 = dict(begin=8, write=44, get=6, scan=2, range=2, cur=4, sp=0, rbsp=0, commit=14, rollback=1, drop=6,
+              rotate=4, flush=12, flush1=4, compact=16, compactauto=2, reopen=3)
+    programs = []
+    for i in range(n):
+        opts = CONF_OPTS[i % len(CONF_OPTS)]
+        if (i // len(CONF_OPTS)) % 3 != 2:
+            lines, exp = directed_program(rng, model, opts)
+            programs.append((lines, exp, opts))
+            continue
+        g = DumpGen(rng, model, opts=opts, weights=W2, keys=["61", "62", "6162", "63", "6200", "64"], max_tx=3, values=conf_values,
+                    ts_mode=False)
+        g.start()
+        for _ in range(rng.randint(50, 130)):
+            g.step()
+        lines, exp = g.finish()
+        programs.append((lines, exp, opts))
+    model.close()
+    got = G.run_impl([(l, e) for (l, e, _) in programs])
+    # per program: the model script and what each answer must equal
+    scripts, checks = [], []
+    stats = dict(programs=len(programs), steps=0, flush_steps=0, compact_steps=0, reopen_steps=0, files_removed=0, rotations=0,
+                 tables_with_pointers=0, index_entries_pruned=0, unmodelled=0, api_mismatch=0)
+    for (lines, exp, opts), g in zip(programs, got):
+        g = g or []
+        # the API answers must still equal the specification machine (dump lines are informational)
+        for j, l in enumerate(lines):
+            if l == "e2 vlogdump" or l in G.INFO:
+                continue
+            gj = g[j] if j < len(g) else "<missing>"
+            if gj != exp[j]:
+                stats["api_mismatch"] += 1
+                if len(res["violations"]) < 2:
+                    desc = "`%s`: implementation answers %s, specification %s (conformance run, options %s)" % (l, gj[:160], exp[j][:160], opts)
+                    res["violations"].append((desc, G.replay_text("C11", desc, lines[:j + 1], exp[:j + 1], g[:j + 1])))
+                break
+        sc = ["vl new %d %d %d %d" % (opt_of(opts, "vth", 4096), opt_of(opts, "vfs", 1 << 28), opt_of(opts, "vck", 0), opt_of(opts, "idx", 0))]
+        ck = [None]
+        prev = dict(tables={}, files="", index=None)
+        ok = True
+        for j, l in enumerate(lines):
+            if l != "e2 vlogdump" or j >= len(g):
+                continue
+            cur = parse_dump(g[j])
+            cmd = lines[j - 1].split()[1]
+            if cur is None:
+                ok = False
+                res["disagreements"].append("vlogdump failed after `%s`: %s" % (lines[j - 1], g[j][:200]))
+                break
+            added = sorted(set(cur["tables"]) - set(prev["tables"]))
+            removed = sorted(set(prev["tables"]) - set(cur["tables"]))
+            steps = []
+            if cmd in ("compact", "compactauto"):
+                if removed or added:
+                    out = cur["tables"][added[0]][1] if added else []
+                    steps.append("vl compact %s %d %s" % (",".join(map(str, removed)) or "-", added[0] if added else 0, ",".join(out) or "-"))
+                    stats["compact_steps"] += 1
+                    if len(added) > 1:
+                        ok = False
+            else:
+                if removed:
+                    ok = False
+                for tid in added:
+                    mem = [mem_entry(e) for e in cur["tables"][tid][1]]
+                    if None in mem:
+                        ok = False
+                        break
+                    steps.append("vl flush %d %s" % (tid, ",".join(mem) or "-"))
+                    stats["flush_steps"] += 1
+                if cmd in ("reopen",):
+                    steps.append("vl reopen")
+                    stats["reopen_steps"] += 1
+            if not ok:
+                stats["unmodelled"] += 1
+                break
+            if not steps:
+                steps = ["vl state"]
+            for s in steps[:-1]:
+                sc.append(s)
+                ck.append(None)
+            sc.append(steps[-1])
+            ck.append((cur, lines[:j + 1]))
+            pf = set(x.split(":")[0] for x in prev["files"].split(",") if x)
+            cf = set(x.split(":")[0] for x in cur["files"].split(",") if x)
+            stats["files_removed"] += len(pf - cf)
+            stats["rotations"] += len(cf - pf)
+            stats["tables_with_pointers"] += sum(1 for t in added if cur["tables"][t][0] > 0)
+            if prev["index"] is not None and cur["index"] is not None:
+                stats["index_entries_pruned"] += max(0, len(prev["index"]) + sum(len(cur["tables"][t][1]) for t in added if cmd not in ("compact", "compactauto")) - len(cur["index"]))
+            prev = cur
+        scripts.append(sc)
+        checks.append(ck)
+    shards = C.shard(list(range(len(scripts))), C.NCPU)
+    out = C.run_pairs([[l for i in sh for l in scripts[i]] for sh in shards], sides=("model",))
+    for sh, r in zip(shards, out):
+        ans = r["model"][0]
+        pos = 0
+        for i in sh:
+            a = ans[pos:pos + len(scripts[i])]
+            pos += len(scripts[i])
+            for k, c in enumerate(checks[i]):
+                if c is None:
+                    continue
+                stats["steps"] += 1
+                cur, upto = c
+                m = parse_dump(a[k]) if k < len(a) else None
+                bad = None
+                if m is None:
+                    bad = "the model refuses `%s`: %s" % (scripts[i][k][:200], (a[k] if k < len(a) else "<missing>")[:100])
+                else:
+                    for fld in ("files", "active", "next", "min", "tables", "index"):
+                        if m[fld] != cur[fld]:
+                            bad = "%s differ after `%s`: implementation %s, model %s" % (fld, upto[-2], str(cur[fld])[:300], str(m[fld])[:300])
+                            break
+                if bad:
+                    if len(res["disagreements"]) < 6:
+                        res["disagreements"].append("value-log state machine: " + bad + " || program: " + " ; ".join(x[3:] for x in upto if x != "e2 vlogdump")[:1500])
+                    break
+    res["cov"] = stats
+    return res
+
+
+# ------------------------------------------------------------------------------------------------------
+# (iii) the reader the model does NOT protect: a cursor opened on an older table set, held across a compaction
+# whose clean-up removes a value-log file (Props/C11.v C11_old_reader_unprotected is the model-level witness)
+def held_reader_probe(ctx):
+    """returns (violations, known classes seen, commands)"""
+    out, known, total = [], [], 0
+    for opts, what in (("lc=2,ver=1,vlog=1,vth=0,vfs=64,ret=1", "history cursor"),):
+        L = ["e2 new", "e2 open " + opts, "e2 clock 100", "e2 begin 1 rw", "e2 set 1 61 rep:30:1", "e2 commit 1", "e2 drop 1", "e2 flush",
+             "e2 clock 200", "e2 begin 2 rw", "e2 set 2 61 rep:30:2", "e2 commit 2", "e2 drop 2", "e2 flush",
+             "e2 begin 9 ro", "e2 histopen 9 1 61 62 0", "e2 cur 1 first", "e2 clock 1000000000", "e2 compact 0", "e2 vlogdump", "e2 cur 1 next", "e2 close"]
+        ans = C.run_pairs([L], sides=("impl",), timeout=120)[0]["impl"][0]
+        total += len(L)
+        a = ans[len(L) - 2] if len(ans) >= len(L) - 1 else "<missing>"
+        v1 = C.rep(30, 1)
+        good = ("cur:61=#%d/%s" % (len(v1), C.fnv(v1)), "cur:invalid")
+        if a not in good:
+            desc = ("a %s opened before a compaction and advanced after it fails: `%s` -> %s (the compaction dropped the version written at "
+                    "clock 100, past retention, and the clean-up removed value-log file 1 while the cursor's table set still points into it)" % (what, L[-2], a[:300]))
+            text = "\n".join(["# property=C11", "# oracle: a read returns the value written or nothing, never an error", "# options: " + opts] +
+                             ["> %s\nIMPL:  %s" % (l, ans[i] if i < len(ans) else "<missing>") for i, l in enumerate(L)]) + "\n"
+            if "Failed_to_resolve_value_from_VLog" in a and "No_such_file" in a:
+                known.append(("held_reader_vlog_file_removed", desc, text))
+            else:
+                out.append((desc, text))
+    return out, known, total
+
+
 def explore(ctx):
     r = G.explore_profiles(ctx, "C11", PROFILES, nontrivial, classify=classify, n_quick=200, n_thorough=3000)
     r["coverage"]["rule"] = ("API histories with the value log enabled: value sizes 0, threshold-1, threshold, threshold+1, multi-block (up to 100 kB), "
@@ -130,6 +596,35 @@ def explore(ctx):
     cov["crash_images"] = cc.get("images")
     cov["crash_verdicts"] = cc.get("verdicts")
     cov["rule"] += "; plus crash images (recorder + file-system simulator, process crash and three power-loss policies) of workloads with separated values over value-log files of 64-256 bytes"
+    # (i) codec differential
+    cv, cd, cc2 = codec_differential(ctx)
+    r["violations"] += cv[:2]
+    r["disagreements"] += cd
+    cov["evaluations"] += cc2["commands"]
+    cov["disagreements_checked"] = cov.get("disagreements_checked", 0) + cc2["commands"]
+    cov["vlog_codec"] = cc2
+    # (ii) state-machine conformance
+    cf = conformance(ctx)
+    r["violations"] += cf["violations"][:2]
+    r["disagreements"] += cf["disagreements"]
+    cov["vlog_machine"] = cf["cov"]
+    cov["evaluations"] += cf["cov"].get("steps", 0)
+    cov["disagreements_checked"] += cf["cov"].get("steps", 0)
+    cov["distinct_nontrivial"] += cf["cov"].get("compact_steps", 0)
+    # (iii) held reader
+    hv, hk, hn = held_reader_probe(ctx)
+    kf = C.known_findings("C11")
+    for cls, desc, text in hk:
+        if cls in kf:
+            r["known"].append(kf[cls])
+        else:
+            hv.append((desc, text))
+    r["violations"] += hv[:1]
+    cov["evaluations"] += hn
+    cov["rule"] += ("; plus (i) the value-log codec differential (`vp`: pointer / location encode-decode with boundary and malformed inputs, a value log of its own with "
+                    "rotation, reads at both checksum levels, clean-up, reopen; memtable flush with separation) model vs implementation vs a python oracle; (ii) state-machine "
+                    "conformance: the real value-log directory, writer ids, every live table's oldest_vlog_file_id and stored values, and the version index after every physical "
+                    "command vs the extracted Lsm/Vlog.v machine replaying the same flush / compaction / reopen sequence; (iii) a directed probe of a cursor held across a clean-up")
     return r
 
 
